@@ -212,6 +212,20 @@ def suicide (db : DB) (a : Nat) : DB := mstep db (.suicide a)
 def addAddressToAccessList (db : DB) (a : Nat) : DB := mstep db (.accAddr a)
 def addSlotToAccessList (db : DB) (a k : Nat) : DB := mstep (mstep db (.accAddr a)) (.accSlot a k)
 
+/-- SyncBalances for one address: a cached, not self-destructed object whose balance differs from the bank's
+    takes the bank's balance (journalled like any balance change) -/
+def syncOne (db : DB) (a : Nat) : DB :=
+  match db.objs a with
+  | none => db
+  | some o =>
+    if o.suicided then db
+    else if db.k.exist a = false then db
+    else if o.bal = db.k.bal a then db
+    else (db.push (.balance a o.bal)).setObj a { o with bal := db.k.bal a }
+
+/-- StateDB.SyncBalances: every cached object, in address order (`addrs` lists the addresses the run can mention) -/
+def syncBalances (db : DB) (addrs : List Nat) : DB := addrs.foldl syncOne db
+
 /-- keeper.SetBalance: mint or burn the difference -/
 def Keeper.setBalance (k : Keeper) (a v : Nat) : Keeper :=
   { k with bal := upd k.bal a v, supply := k.supply + (v : Int) - (k.bal a : Int) }
